@@ -27,8 +27,9 @@ type FeatureLocal struct {
 	muxWriteReceived       sync.Mutex
 	writeApprovalReceived  map[string]map[model.MsgCounterType]int
 	pendingWriteApprovals  map[string]map[model.MsgCounterType]*time.Timer
-	// the writing remote feature of each pending write, needed to drop the writes of a removed remote entity
-	pendingWriteSources map[string]map[model.MsgCounterType]*model.FeatureAddressType
+	// the message of each pending write: a verdict only counts for the message it was given for, and the writing
+	// remote feature tells which writes a removed remote entity takes with it
+	pendingWriteSources map[string]map[model.MsgCounterType]*pendingWrite
 
 	bindings      []*model.FeatureAddressType // bindings to remote features
 	subscriptions []*model.FeatureAddressType // subscriptions to remote features
@@ -47,7 +48,7 @@ func NewFeatureLocal(id uint, entity api.EntityLocalInterface, ftype model.Featu
 		responseMsgCallback:   make(map[model.MsgCounterType][]func(result api.ResponseMessage)),
 		writeApprovalReceived: make(map[string]map[model.MsgCounterType]int),
 		pendingWriteApprovals: make(map[string]map[model.MsgCounterType]*time.Timer),
-		pendingWriteSources:   make(map[string]map[model.MsgCounterType]*model.FeatureAddressType),
+		pendingWriteSources:   make(map[string]map[model.MsgCounterType]*pendingWrite),
 		writeTimeout:          defaultMaxResponseDelay,
 	}
 
@@ -188,6 +189,10 @@ func (r *FeatureLocal) processWriteApprovalCallbacks(msg *api.Message) {
 	}
 }
 
+type pendingWrite struct {
+	msg *api.Message
+}
+
 func (r *FeatureLocal) addPendingApproval(msg *api.Message) {
 	if r.Role() != model.RoleTypeServer ||
 		msg.DeviceRemote == nil ||
@@ -220,12 +225,10 @@ func (r *FeatureLocal) addPendingApproval(msg *api.Message) {
 		r.pendingWriteApprovals[ski] = make(map[model.MsgCounterType]*time.Timer)
 	}
 	r.pendingWriteApprovals[ski][*msg.RequestHeader.MsgCounter] = newTimer
-	if msg.FeatureRemote != nil {
-		if _, ok := r.pendingWriteSources[ski]; !ok {
-			r.pendingWriteSources[ski] = make(map[model.MsgCounterType]*model.FeatureAddressType)
-		}
-		r.pendingWriteSources[ski][*msg.RequestHeader.MsgCounter] = msg.FeatureRemote.Address()
+	if _, ok := r.pendingWriteSources[ski]; !ok {
+		r.pendingWriteSources[ski] = make(map[model.MsgCounterType]*pendingWrite)
 	}
+	r.pendingWriteSources[ski][*msg.RequestHeader.MsgCounter] = &pendingWrite{msg: msg}
 	r.muxResponseCB.Unlock()
 }
 
@@ -245,6 +248,13 @@ func (r *FeatureLocal) ApproveOrDenyWrite(msg *api.Message, err model.ErrorType)
 	r.muxResponseCB.Lock()
 	timer, ok := r.pendingWriteApprovals[ski][*msg.RequestHeader.MsgCounter]
 	count := len(r.writeApprovalCallbacks)
+	if pending, known := r.pendingWriteSources[ski][*msg.RequestHeader.MsgCounter]; known {
+		// a verdict for another message with the same counter (a write of an earlier connection) is void
+		if pending.msg != msg {
+			r.muxResponseCB.Unlock()
+			return
+		}
+	}
 	r.muxResponseCB.Unlock()
 
 	// if there is no timer running, we are too late and error has already been sent
@@ -329,7 +339,11 @@ func (r *FeatureLocal) cleanWriteApprovalsOfEntity(remoteAddress *model.EntityAd
 	defer r.muxResponseCB.Unlock()
 
 	for ski, sources := range r.pendingWriteSources {
-		for msgCounter, source := range sources {
+		for msgCounter, pending := range sources {
+			if pending == nil || pending.msg == nil || pending.msg.FeatureRemote == nil {
+				continue
+			}
+			source := pending.msg.FeatureRemote.Address()
 			if source == nil || source.Device == nil ||
 				*source.Device != *remoteAddress.Device ||
 				!reflect.DeepEqual(source.Entity, remoteAddress.Entity) {
